@@ -1,7 +1,7 @@
 (** Slicing, part 1: characterising equations of the specification [sg] / model [gn] (Ops_Getitem),
     the list algebra of the range / integer steps, and the step lemmas at a list node
     (what one [IAt] / [IRange] item does to a ListOffset / ListArray / RegularArray, in the model and in
-    the specification).  The refinement theorems are in Proofs_Getitem2.v. *)
+    the specification).  The refinement theorems are in Proofs_Getitem3.v. *)
 From Coq Require Import ZArith List Bool Lia ZifyBool.
 From AwkV Require Import Base Layout LayoutInd Valid Types AtAxis Carry Ops_Getitem Typing Proofs_Typing
                          Proofs_Lists Proofs_ToList Proofs_Carry Proofs_CarryValid Proofs_AtAxis Proofs_AtAxisOps
